@@ -48,6 +48,8 @@ def build_probes(case):
             tpl = [i % (nt - 1) for i in range(nt + 1)]
         else:
             tpl = [i % nt for i in range(nt + 1)]
+        # every probe of a merge has the same rate: a round one, or a calibrated one with many decimals
+        q['sample_rate'] = 100.0 if len(case['tuple']) % 2 else 29999.954846
         q.update(n_spikes=nt + 1, templates=tpl, times=[3 * i + k for i in range(nt + 1)],
                  amp_base=1.0 + q.pop('amp_step', 16) * k, fill=k)    # amplitudes identify spikes
         probes.append(q)
@@ -176,8 +178,9 @@ def check(res):
                     bad.append((fn, 'not-block-diagonal', describe(exp), describe(a)))
     prm = out.get('params.py') or {}
     exp_dat = sum(tr['n_channels_dat'] for tr in truths)
-    if prm.get('n_channels_dat') != exp_dat or prm.get('sample_rate') != 100.0:
-        bad.append(('params.py', 'value', {'n_channels_dat': exp_dat, 'sample_rate': 100.0},
+    sr_exp = truths[0]['spec']['sample_rate']
+    if prm.get('n_channels_dat') != exp_dat or prm.get('sample_rate') != sr_exp:
+        bad.append(('params.py', 'value', {'n_channels_dat': exp_dat, 'sample_rate': sr_exp},
                     {k: prm.get(k) for k in ('n_channels_dat', 'sample_rate', 'error')}))
     if res.get('loads') is not True:
         bad.append(('merged-directory', 'does-not-load', 'load_model succeeds', res.get('loads')))
